@@ -30,6 +30,11 @@ class LambdaTokenTranslator(AbstractTranslator):
                         condition_symbol = '!='
 
                 if parsed_literal[1]:
+                    if expression:
+                        # ">1"&A2: the number goes on in the expression, the criterion is only known when the formula is evaluated
+                        raise E2PyclParserException(
+                            f'A criterion assembled from {literal} and an expression is not supported', token.in_cell
+                        )
                     # the number is written out again as Python writes it (">007" is > 7: a leading zero is not Python)
                     condition_value = repr(float(parsed_literal[1])) if parsed_literal[3] or parsed_literal[6] \
                         else str(int(parsed_literal[1]))
@@ -38,9 +43,12 @@ class LambdaTokenTranslator(AbstractTranslator):
                 else:
                     condition_value = expression
 
-            else:
-                if expression:
-                    condition_value = expression
+            elif expression and literal != "'='":
+                # "a"&"bc": the criterion is the text the two parts form together
+                condition_value = f'(self._excel_value_to_string({literal})+self._excel_value_to_string({expression}))'
+
+            elif expression:
+                condition_value = expression
         else:
             condition_value = expression
 
